@@ -205,6 +205,9 @@ class Repo:
         for rel, text in self.overlay.items():
             if rel not in seen and rel.startswith("src/mdpax/") and rel.endswith(".py"):
                 self._add(rel, text)
+        from .canon import cross_module_constants
+
+        cross_module_constants(self)
 
     def _add(self, rel: str, text: str) -> None:
         parts = Path(rel).with_suffix("").parts[1:]  # drop 'src'
